@@ -13,4 +13,4 @@ cd /verif
 PYTHONPATH=$W/src VERIF_EVIDENCE_DIR=$OUT/evidence VERIF_REPLAY_DIR=$OUT/replays timeout 3600 ./run $PID --tier $TIER > $OUT/log 2>&1; RC=$?
 V=$(grep -c "^VIOLATION" $OUT/log)
 echo "RESULT $PID $(basename $(dirname $DIR))/$(basename $DIR) demo_exit=$D check_exit=$RC violations=$V :: $(grep counterexample $OUT/log | head -2 | cut -c1-220 | tr '\n' '|') :: $(tail -1 $OUT/log | cut -c1-160)"
-rm -rf $OUT
+[ -n "$KEEP" ] && cp $OUT/log $KEEP; rm -rf $OUT
